@@ -283,6 +283,8 @@ def probe_cases(ctx, ws, cwd, asm0, which, part=0, nparts=1):
                  "zz_first": ws.write("p_zz_first.yaml", real.dump_rule({"macros": [{"name": "@two", "pattern": [{"$and": ["@k", "push"]}]}]})),
                  "mc": ws.write("p_mc.yaml", real.dump_rule({"macros": [{"name": "@unused", "pattern": "hlt"}]}))}
         combos = [c for r in (1, 2, 3) for c in itertools.permutations(sorted(files), r)]
+        # one file named twice: macros are applied once each, in list order, so the second mention is what expands a name an earlier file brought in
+        combos += [("ma", "zz_first", "ma"), ("zz_first", "ma", "zz_first"), ("ma", "ma"), ("mb", "ma", "mb")]
         for ci, combo in enumerate(combos):
             if ci % nparts != part:
                 continue
